@@ -55,7 +55,11 @@ func (s sel) css() string {
 		b.WriteString(":" + s.side)
 	}
 	if s.nth != nil {
-		fmt.Fprintf(&b, ":nth(%dn+%d)", s.nth[0], s.nth[1])
+		if s.nth[1] < 0 {
+			fmt.Fprintf(&b, ":nth(%dn%d)", s.nth[0], s.nth[1])
+		} else {
+			fmt.Fprintf(&b, ":nth(%dn+%d)", s.nth[0], s.nth[1])
+		}
 	}
 	return b.String()
 }
@@ -394,7 +398,7 @@ func Run(tier string, seed uint64, modelPath, repo string, out *res.Result) erro
 	r := rng.New(seed)
 	n := 3000
 	if tier == "thorough" {
-		n = 80000
+		n = 50000
 	}
 	out.Rule = "class-F documents of the C02 generator (levels 0-3, named pages n1/n2 via `page`, break values incl. recto/verso) x @page rule sets " +
 		"(base rule with size + margins + @top-center counter box; 0-4 further rules with selectors :first :left :right :blank :nth(an+b) n1 n2 and combinations, selector lists, " +
